@@ -172,11 +172,37 @@ def check_encode_case(ptype, nsp, id, data, stats, bad):
             f'decoded {(dec.packet_type, dec.namespace, dec.id)!r} '
             f'data {dec.data!r}', case)
         return
+    # the decoded payload belongs to the receiver: changing it must not
+    # change what the same frame decodes to next time
+    _poison(dec.data)
+    try:
+        dec2 = P.Packet(encoded_packet=frame)
+        for a in got_atts:
+            dec2.add_attachment(a)
+    except Exception as e:
+        bad('C01/second-decode', f'second decode raised {e!r}', case)
+        return
+    if not rc.typed_equal(dec2.data, data):
+        bad('C01/second-decode', f'the same frame decoded to {dec2.data!r} '
+            f'after the first result had been modified by its receiver',
+            case)
+        return
     stats['roundtrips'] += 1
     if atts:
         stats['with_attachments'] += 1
         if enum.depth_of_bytes(data) >= 2:
             stats['nested_bytes'] += 1
+
+
+def _poison(x):
+    if isinstance(x, list):
+        for i in x:
+            _poison(i)
+        x.append('<poison>')
+    elif isinstance(x, dict):
+        for v in list(x.values()):
+            _poison(v)
+        x['<poison>'] = 1
 
 
 def _new_stats():
